@@ -347,9 +347,24 @@ func TestVerifC32Copy(t *testing.T) {
 
 		// ---- source modifications after the partial copy: original chains
 		nmods := rapid.IntRange(0, 2).Draw(t, "nmods")
+		// every modification takes a snapshot that was neither modified before nor is the product
+		// of a modification: rewriting one snapshot twice without --forget with the same effect
+		// yields two source snapshots that are indistinguishable for the "exactly one copy each"
+		// oracle (same original, tree, time, tags) - a false alarm of an earlier version of this check
+		touched := map[string]bool{}
 		for i := 0; i < nmods; i++ {
 			ids, _ := src.SnapshotIDs()
-			target := ids[rapid.IntRange(0, len(ids)-1).Draw(t, "modtarget")]
+			var cand []string
+			for _, id := range ids {
+				if !touched[id] {
+					cand = append(cand, id)
+				}
+			}
+			if len(cand) == 0 {
+				break
+			}
+			target := cand[rapid.IntRange(0, len(cand)-1).Draw(t, "modtarget")]
+			touched[target] = true
 			kind := rapid.SampledFrom([]string{"tag", "rehost", "exclude"}).Draw(t, "modkind")
 			model := srcModels[target]
 			if kind == "exclude" && len(model.Tree.Paths()) == 0 {
@@ -385,6 +400,7 @@ func TestVerifC32Copy(t *testing.T) {
 			after, _ := src.SnapshotIDs()
 			if id := vNewID(ids, after); id != "" {
 				srcModels[id] = model
+				touched[id] = true
 			}
 			sc.Mods = append(sc.Mods, kind)
 		}
